@@ -52,9 +52,12 @@ _B_RULES = [
 def policies(kind):
     """policy 0 (A) and policy 1 (B): they decide both requests differently, in effect, rule id,
     reason (and policy id for sets)."""
+    single = [{"algorithm": "deny-overrides", "rules": copy.deepcopy(_A_RULES)},
+              {"algorithm": "deny-overrides", "rules": copy.deepcopy(_B_RULES)}]
     if kind == "single":
-        return [{"algorithm": "deny-overrides", "rules": copy.deepcopy(_A_RULES)},
-                {"algorithm": "deny-overrides", "rules": copy.deepcopy(_B_RULES)}]
+        return single
+    if kind == "mixed":      # a single policy replaced by a policy set
+        return [single[0], policies("set")[1]]
     return [{"algorithm": "deny-overrides",
              "policies": [{"id": "pA", "algorithm": "deny-overrides", "rules": copy.deepcopy(_A_RULES)}]},
             {"algorithm": "deny-overrides",
@@ -112,11 +115,36 @@ def dec_dict(d):
 _EXPECTED: dict = {}
 
 
-def expected(polkind):
+class no_compiler:
+    """test-side fault: the optional compiler is unavailable (engine.compile_policy is None), so every
+    evaluation takes the interpreter path that reads Guard.policy."""
+
+    def __init__(self, on):
+        self.on = on
+
+    def __enter__(self):
+        from rbacx.core import engine
+
+        self.saved = engine.compile_policy
+        if self.on:
+            engine.compile_policy = None
+
+    def __exit__(self, *a):
+        from rbacx.core import engine
+
+        engine.compile_policy = self.saved
+
+
+def expected(polkind, nocompile=False):
     """(p, e) -> what an uncached Guard on policy p answers for request e, the raw decision and the
     cache key the engine uses for it; tag[p] = etag of policy p."""
-    if polkind in _EXPECTED:
-        return _EXPECTED[polkind]
+    if (polkind, nocompile) in _EXPECTED:
+        return _EXPECTED[(polkind, nocompile)]
+    with no_compiler(nocompile):
+        return _expected(polkind, nocompile)
+
+
+def _expected(polkind, nocompile):
     from rbacx.core.engine import Guard
 
     pols = policies(polkind)
@@ -139,7 +167,7 @@ def expected(polkind):
     for e in (0, 1):
         if out["dec"][(0, e)] == out["dec"][(1, e)]:
             raise RuntimeError("C09 harness: test policies do not differ on request %d" % e)
-    _EXPECTED[polkind] = out
+    _EXPECTED[(polkind, nocompile)] = out
     return out
 
 
@@ -228,7 +256,7 @@ class Run:
 
     def observe(self, post):
         """after all threads are done: fresh evaluations, then the final state."""
-        exp = expected(self.case["pol"])
+        exp = expected(self.case["pol"], bool(self.case.get("nocompile")))
         g = self.guard
         out = {"results": {str(i): r for i, r in self.results.items()}, "post": [], "errors": []}
         for n, (res, exc) in self.s.results().items():
@@ -314,7 +342,7 @@ def run_coarse(case, probe=None):
 def run_lines(case):
     """line-level run.  case['choices'] = thread index per step (a prefix; afterwards: keep running
     the current thread while it is enabled, else the lowest enabled one).  Returns the full trace."""
-    r = Run(case, line_filter)
+    r = Run(case, coarse_filter if case.get("filter") == "coarse" else line_filter)
     s = r.s
     n = len(r.progs)
     prefix = case.get("choices", [])
@@ -385,6 +413,11 @@ def run_segments(case):
 
 
 def _work(case):
+    with no_compiler(bool(case.get("nocompile"))):
+        return _work1(case)
+
+
+def _work1(case):
     try:
         k = case["kind"]
         if k == "coarse":
@@ -431,7 +464,8 @@ def run_impl(cases, chunk=24):
 # the model
 # ----------------------------------------------------------------------------------
 def model_cfg(case):
-    return {"p0": 0, "has_cache": case["cache"] != "none", "untagged": [], "uncompilable": []}
+    return {"p0": 0, "has_cache": case["cache"] != "none", "untagged": [],
+            "uncompilable": [0, 1] if case.get("nocompile") else []}
 
 
 def model_progs(case):
@@ -448,11 +482,23 @@ def model_coarse(cases):
     return [lib.dec(x) for x in lib.run_model("swap", lines)]
 
 
-def enumerate_coarse(cache, progs, limit=None, rng=None):
+_ENUM: dict = {}
+
+
+def enumerate_coarse(cache, progs, limit=None, rng=None, nocompile=False):
+    if limit is not None:
+        return _enumerate_coarse(cache, progs, limit, rng, nocompile)
+    k = (cache != "none", nocompile, repr(progs))
+    if k not in _ENUM:
+        _ENUM[k] = _enumerate_coarse(cache, progs, None, None, nocompile)
+    return _ENUM[k]
+
+
+def _enumerate_coarse(cache, progs, limit=None, rng=None, nocompile=False):
     """all complete coarse schedules of `progs` (list of thread ids), enumerated by the model itself,
     level by level; with limit+rng: that many random walks instead.  Also returns the blocked
     situations met: (prefix, thread) where the model says the thread's next access is disabled."""
-    cfg = {"p0": 0, "has_cache": cache != "none", "untagged": [], "uncompilable": []}
+    cfg = {"p0": 0, "has_cache": cache != "none", "untagged": [], "uncompilable": [0, 1] if nocompile else []}
     n = len(progs)
     done, blocked = [], []
     if limit is None:
@@ -512,7 +558,7 @@ def installed(case):
 
 def judge_property(chk, case, impl):
     """the statement of C09, on the implementation's own output.  Returns True when it holds."""
-    exp = expected(case["pol"])
+    exp = expected(case["pol"], bool(case.get("nocompile")))
     ok = True
     if impl.get("harness_error"):
         raise RuntimeError("C09 harness error: " + impl["harness_error"])
@@ -561,7 +607,7 @@ def _slim(impl):
 
 def compare_model(chk, case, impl, m):
     """model vs implementation on the observables the theorems speak about."""
-    exp = expected(case["pol"])
+    exp = expected(case["pol"], bool(case.get("nocompile")))
     n = len(case["progs"])
     diffs = []
     steps = [MODEL_NAME.get(x, x) for x in m["steps"][:len(case["sched"])]]
@@ -608,9 +654,10 @@ def check_cases(chk, cases, replay=False):
     for c, impl, m in zip(coarse, impl_c, models):
         fam = c.get("fam", "?")
         chk.count("fam:" + fam)
-        chk.count("config:%s/%s" % (c["cache"], c["pol"]))
+        chk.count("config:%s/%s%s" % (c["cache"], c["pol"], "/nocompile" if c.get("nocompile") else ""))
         overl = len(set(c["sched"])) > 1 and any(a != b for a, b in zip(c["sched"], c["sched"][1:]))
-        chk.mark(("coarse", c["cache"], c["pol"], repr(c["progs"]), tuple(c["sched"]), c.get("probe")), overl)
+        chk.mark(("coarse", c["cache"], c["pol"], c.get("nocompile"), repr(c["progs"]), tuple(c["sched"]),
+                  c.get("probe")), overl)
         if impl.get("harness_error"):
             raise RuntimeError("C09 harness error: " + impl["harness_error"])
         if "!disabled" in m["steps"]:
@@ -640,8 +687,8 @@ def check_cases(chk, cases, replay=False):
                            theorems=THEOREMS)
     for c, impl in zip(others, impl_o):
         chk.count("fam:" + c.get("fam", c["kind"]))
-        chk.count("config:%s/%s" % (c["cache"], c["pol"]))
-        key = (c["kind"], c["cache"], c["pol"], repr(c["progs"]), repr(c.get("choices")), repr(c.get("segments")),
+        chk.count("config:%s/%s%s" % (c["cache"], c["pol"], "/nocompile" if c.get("nocompile") else ""))
+        key = (c["kind"], c.get("filter"), c.get("nocompile"), c["cache"], c["pol"], repr(c["progs"]), repr(c.get("choices")), repr(c.get("segments")),
                repr(c.get("random")))
         chk.mark(key, True)
         if c["kind"] == "lines":
@@ -649,6 +696,10 @@ def check_cases(chk, cases, replay=False):
             chk.count("line_preemptions:%d" % min(sw, 6))
         chk.sample({"case": c, "impl": {k: impl.get(k) for k in ("results", "post", "cache", "segments_log")}},
                    every=499)
+        if c["kind"] == "lines":
+            # a failing run is replayed by the choices it made, not by its seed or its defaults
+            c = {k: v for k, v in c.items() if k != "random"}
+            c["choices"] = [ch for _, ch, _ in impl.get("trace", [])]
         judge_property(chk, c, impl)
     return impl_all
 
@@ -716,12 +767,15 @@ def run(chk):
     quick = chk.tier == "quick"
     rng = chk.rng
     chk.rule = ("coarse replay: every interleaving (enumerated by the extracted model) of the modelled shared-state "
-                "accesses of set_policy(B) || evaluate(r) for both requests, per cache kind (built-in, dict-backed) "
-                "and policy kind (single, set), each followed by fresh evaluations of both requests; A->B->A || "
-                "evaluate and set_policy(B) || evaluate || evaluate: all (thorough) or a seeded sample (quick); "
-                "lock probes where the model says blocked; line-level search on the implementation up to the "
-                "pre-emption bound and seeded random schedules beyond.  non-trivial = the schedule really "
-                "interleaves two threads; distinct = distinct (configuration, programs, schedule)")
+                "accesses of set_policy(B) || evaluate(r) for both requests, per cache kind (built-in, dict-backed, "
+                "none) and policy kind (single, set, single->set without compiler), each followed by fresh "
+                "evaluations of both requests; set_policy(B);set_policy(A) || evaluate and set_policy(B) || "
+                "evaluate;evaluate: every interleaving on the built-in cache (all configurations in thorough), a "
+                "seeded sample on the others; set_policy(B) || evaluate || evaluate: seeded sample (the full set "
+                "is out of reach); lock probes where the model says blocked; on the implementation alone: every "
+                "interleaving of the located accesses that the implementation admits, every source-line schedule "
+                "up to the pre-emption bound, seeded random line schedules beyond.  non-trivial = the schedule "
+                "really interleaves two threads; distinct = distinct (configuration, programs, schedule)")
     chk.assumptions = [
         "CPython: a single attribute load/store and a single dict/OrderedDict operation are atomic under the GIL "
         "(free-threaded builds out of scope)",
@@ -759,15 +813,24 @@ def run(chk):
             for (p, i) in rng.sample(blocked, min(len(blocked), 3 if quick else 12)):
                 cases.append({"kind": "coarse", "cache": cache, "pol": pol, "progs": progs, "sched": p, "probe": i,
                               "post": [0, 1], "fam": "lock-probe"})
+    # 1b. the optional compiler unavailable (every evaluation interprets Guard.policy), a single policy
+    #     replaced by a policy set
+    for e in (0, 1):
+        progs = [U1, [["eval", e]]]
+        scheds, blocked = enumerate_coarse("builtin", progs + [[]], nocompile=True)
+        enum_stats["U||E nocompile"] = len(scheds)
+        for s in scheds:
+            cases.append({"kind": "coarse", "cache": "builtin", "pol": "mixed", "nocompile": True, "progs": progs,
+                          "sched": s, "post": [0, 1], "fam": "U||E"})
     chk.exhaustive = True
     # 2. A -> B -> A || one evaluator
     for ci, (cache, pol) in enumerate(CONFIGS):
-        progs = [U2, [["eval", 0]]]
-        if quick:
-            scheds, _ = enumerate_coarse(cache, progs + [[]], limit=260, rng=rng)
+        progs = [U2, [["eval", ci % 2]]]
+        if quick and ci > 0:
+            scheds, _ = enumerate_coarse(cache, progs + [[]], limit=150, rng=rng)
         else:
             scheds, _ = enumerate_coarse(cache, progs + [[]])
-            enum_stats["ABA||E %s" % cache] = len(scheds)
+            enum_stats["ABA||E"] = len(scheds)
         for s in scheds:
             cases.append({"kind": "coarse", "cache": cache, "pol": pol, "progs": progs, "sched": s,
                           "post": [0, 1], "fam": "ABA||E"})
@@ -775,14 +838,18 @@ def run(chk):
     for ci, (cache, pol) in enumerate(CONFIGS):
         for e2 in (0, 1):
             progs = [U1, [["eval", 0]], [["eval", e2]]]
-            scheds, _ = enumerate_coarse(cache, progs + [[]], limit=(130 if quick else 3000), rng=rng)
+            scheds, _ = enumerate_coarse(cache, progs + [[]], limit=(100 if quick else 4000), rng=rng)
             for s in scheds:
                 cases.append({"kind": "coarse", "cache": cache, "pol": pol, "progs": progs, "sched": s,
                               "post": [0, 1], "fam": "U||E||E"})
     # 4. an evaluator thread that evaluates twice (second call may hit what the first stored) || update
-    for cache, pol in CONFIGS[:2]:
+    for ci, (cache, pol) in enumerate(CONFIGS[:2] if quick else CONFIGS):
         progs = [U1, [["eval", 0], ["eval", 0]]]
-        scheds, _ = enumerate_coarse(cache, progs + [[]], limit=(120 if quick else 3000), rng=rng)
+        if quick and ci > 0:
+            scheds, _ = enumerate_coarse(cache, progs + [[]], limit=100, rng=rng)
+        else:
+            scheds, _ = enumerate_coarse(cache, progs + [[]])
+            enum_stats["U||E;E"] = len(scheds)
         for s in scheds:
             cases.append({"kind": "coarse", "cache": cache, "pol": pol, "progs": progs, "sched": s,
                           "post": [0, 1], "fam": "U||E;E"})
@@ -790,18 +857,35 @@ def run(chk):
     check_cases(chk, cases)
     chk.extra["coarse_wall_s"] = round(time.time() - t0, 1)
 
-    # 5. line-level search on the implementation
+    # 5. search on the implementation itself (no model in the loop; enabledness = what really blocks)
     t1 = time.time()
     bound = 2 if quick else 3
     searched = {}
+    # 5a. every interleaving of the located accesses that the IMPLEMENTATION admits
+    for cache, pol, e, nc in [("builtin", "single", 0, False), ("builtin", "mixed", 0, True)] + \
+            ([] if quick else [("dict", "set", 1, False), ("dict", "single", 1, False), ("builtin", "set", 0, False)]):
+        base = {"cache": cache, "pol": pol, "progs": [U1, [["eval", e]]], "post": [0, 1], "filter": "coarse",
+                "fam": "impl-coarse:U||E"}
+        if nc:
+            base["nocompile"] = True
+        searched["accesses U||E %s/%s%s" % (cache, pol, "/nocompile" if nc else "")] = \
+            line_search(chk, base, 99, 3000)
+    if not quick:
+        base = {"cache": "builtin", "pol": "single", "progs": [U2, [["eval", 0]]], "post": [0, 1], "filter": "coarse",
+                "fam": "impl-coarse:ABA||E"}
+        searched["accesses ABA||E builtin/single"] = line_search(chk, base, 99, 40000)
+    # 5b. source-line granularity, pre-emption bounded
+    base = {"cache": "builtin", "pol": "mixed", "nocompile": True, "progs": [U1, [["eval", 0]]], "post": [0, 1],
+            "fam": "lines:U||E"}
+    searched["lines U||E builtin/mixed/nocompile bound 2"] = line_search(chk, base, 2, 1500 if quick else 6000)
     base = {"cache": "builtin", "pol": "single", "progs": [U1, [["eval", 0]]], "post": [0, 1], "fam": "lines:U||E"}
-    searched["U||E builtin/single bound %d" % bound] = line_search(chk, base, bound, 1200 if quick else 60000)
+    searched["lines U||E builtin/single bound %d" % bound] = line_search(chk, base, bound, 1200 if quick else 60000)
     if not quick:
         base = {"cache": "dict", "pol": "set", "progs": [U1, [["eval", 1]]], "post": [0, 1], "fam": "lines:U||E"}
-        searched["U||E dict/set bound 2"] = line_search(chk, base, 2, 5000)
+        searched["lines U||E dict/set bound 2"] = line_search(chk, base, 2, 5000)
         base = {"cache": "builtin", "pol": "single", "progs": [U2, [["eval", 0]]], "post": [0, 1],
                 "fam": "lines:ABA||E"}
-        searched["ABA||E builtin/single bound 2"] = line_search(chk, base, 2, 8000)
+        searched["lines ABA||E builtin/single bound 2"] = line_search(chk, base, 2, 8000)
     rnd = []
     for k in range(150 if quick else 4000):
         cache, pol = CONFIGS[k % len(CONFIGS)]
